@@ -128,7 +128,8 @@ def parse(path):
         elif item is None:
             raise ValueError('%s: @%s before any @item' % (path, d))
         elif d in ('pre_attrs', 'requires', 'ensures', 'decreases'):
-            item[d] = text
+            # a repeated directive adds clauses (it never silently replaces the earlier ones)
+            item[d] = (item[d].rstrip('\n') + '\n' + text) if item.get(d) else text
         elif d == 'nosentinel':
             item['nosentinel'] = (arg + ' ' + text).strip() or 'yes'
         elif d == 'adapt':
@@ -283,6 +284,9 @@ def job(u, sentinel=False, soft_inserts=False, drop_inserts=None, repo=None):
             j['adapts'] = it['adapts']
         if it.get('etas'):
             j['etas'] = it['etas']
+        nested = [o['path'].split('::')[-1] for o in u.items if o['path'].startswith(it['path'] + '::')]
+        if nested:
+            j['drop_nested'] = nested
         if it.get('brk_types'):
             j['brk_types'] = it['brk_types']
         items.append(j)
